@@ -86,13 +86,19 @@ Record case := {
   c_tree : list node;
   c_paging : list (option str * list (nat * str));
   c_filter : option ffilter;                (* None = list_all_files *)
+  c_since : option (bool * dt);             (* Some (created?, since): called through list_files_created_since /
+                                               list_files_modified_since with the folder_paths and extensions of c_filter *)
   c_obs : list obs
 }.
 
 Definition the_prog (E : env) (fuel : nat) (c : case) : prog (list fmeta) :=
   match c_filter c with
   | None => list_all_files E fuel
-  | Some f => list_files_filtered E fuel f (c_drive c)
+  | Some f =>
+      match c_since c with
+      | Some (cr, since) => list_files_since E fuel cr since (folder_paths f) (extensions f) (c_drive c)
+      | None => list_files_filtered E fuel f (c_drive c)
+      end
   end.
 
 Definition check_obs (E : env) (c : case) (o : obs) : bool :=
